@@ -100,6 +100,10 @@ def oracle_fit(case):
     X = unique_data(s)
     n = s["n"]
     est, y = E.build(s, X)
+    if y is not None and s["random_state"] % 2 == 0:
+        # a user-supplied matrix may come in any memory layout and is symmetric only up to rounding
+        rs_ = np.random.RandomState(s["random_state"])
+        y = np.asfortranarray(y * (1.0 + 1e-13 * np.triu(rs_.randn(*y.shape), 1)))
     rec = BatchRecorder(est, keep=True)
     mlcl = case["mlcl"]
     seen_rows = {"bad": None}
